@@ -483,7 +483,12 @@ def check_program(ctx, prog, rng, nproc, stats, label, shrink=True):
                "runs": [{"order": o, "threads": THREADS[k % len(THREADS)], "verdict": a.get("verdict"),
                          "diag": a.get("diag", "")[:3000], "wasm": a.get("wasm"), "ts": a.get("tsrun")}
                         for k, (o, a) in enumerate(zip(o2, a2))][:10]}
-    ctx.violation("identical sources, different compilation result across fresh processes: " + r2[0], payload)
+    internal = r2[0].startswith(("enum layouts differ", "unoptimised MIR differs"))
+    if internal:
+        # no observable difference on this program: the tie to layout_sorted_roots_perm_invariant /
+        # mir_rename_invariant_full is broken, a behaviour-level failing input was not found
+        payload["broken"] = "fresh-process MIR correspondence (enum layouts / MIR up to renaming)"
+    ctx.violation("identical sources, different compilation result across fresh processes: " + r2[0], payload, no_input=internal)
     cdir = os.path.join(common.VERIF, "corpus", "C12")
     os.makedirs(cdir, exist_ok=True)
     return False, answers
